@@ -179,9 +179,47 @@ fn frag(a: &[String]) -> ! {
     std::process::exit(0)
 }
 
+/// `fragexp`: a just-updated sequence must survive cleanup_expired under a long timeout; one that has aged past a short timeout must go
+fn fragexp() -> ! {
+    use edp_client::fragmentation::FragmentAssembler;
+    use std::time::Duration;
+    let mut a = FragmentAssembler::with_timeout(Duration::from_secs(30));
+    a.add_fragment(1u64, 1, vec![1]);
+    let dropped = a.cleanup_expired();
+    if dropped != 0 || a.pending_count() != 1 {
+        eprintln!("REPLAY: fresh sequence dropped by cleanup_expired (returned {}, pending {})", dropped, a.pending_count());
+        std::process::exit(101);
+    }
+    let mut b = FragmentAssembler::with_timeout(Duration::from_millis(300));
+    b.add_fragment(1u64, 1, vec![1]);
+    std::thread::sleep(Duration::from_millis(900));
+    b.add_fragment(2u64, 1, vec![2]);
+    let dropped = b.cleanup_expired();
+    if dropped != 1 || b.pending_count() != 1 {
+        eprintln!("REPLAY: cleanup_expired returned {} with {} pending; expected the old sequence dropped and the fresh one kept", dropped, b.pending_count());
+        std::process::exit(101);
+    }
+    // a sequence that keeps receiving fragments is not expired: age counts from the last fragment
+    let mut c = FragmentAssembler::with_timeout(Duration::from_millis(2000));
+    c.start_fragment(7u64, 3, None, vec![3]);
+    std::thread::sleep(Duration::from_millis(1200));
+    c.add_fragment(7u64, 2, vec![2]);
+    std::thread::sleep(Duration::from_millis(1200));
+    let dropped = c.cleanup_expired();
+    if dropped != 0 || c.pending_count() != 1 {
+        eprintln!("REPLAY: a sequence refreshed 1.2 s ago was dropped under a 2 s timeout (returned {}, pending {})", dropped, c.pending_count());
+        std::process::exit(101);
+    }
+    println!("REPLAY: expiry behaves");
+    std::process::exit(0)
+}
+
 fn main() {
     let a: Vec<String> = std::env::args().collect();
     let kind = a[1].as_str();
+    if kind == "fragexp" {
+        fragexp();
+    }
     if kind == "frag" {
         frag(&a);
     }
